@@ -424,12 +424,8 @@ def handleSeq (cas obs : List String) : Answer :=
         else match specC05Go c 0 c.preItems ops rest with
           | none => "ok"
           | some why =>
-            -- the known defect: the code does what the model says and the torn prefix of a record
-            -- whose encoder failed sits in a file
-            if ops.any OpSpec.torn ∧ obs = [model] then
-              "FAIL:" ++ why ++ " (torn prefix of a record whose encoder failed);sig=C05/encoder-error-torn"
-            else "FAIL:" ++ why ++ ";sig=" ++ c.sig "C05"
-    let tags := modelTags c ops tr ++ (if ops.any OpSpec.torn then ["encoder-error-torn"] else []) ++
+            "FAIL:" ++ why ++ ";sig=" ++ c.sig "C05"
+    let tags := modelTags c ops tr ++ (if ops.any OpSpec.torn then ["encoder-error-after-slices"] else []) ++
       (if ops.any (fun o => o.fail.isSome) then ["encoder-error"] else []) ++
       (if ops.any (fun o => match o.op with | .append _ (some k) => k == LATE | _ => false) then ["roller-late-err"] else [])
     { model, spec, tags := if ops.isEmpty then "trivial" :: tags else "seq" :: tags }
